@@ -5,4 +5,4 @@ From XV Require Import C20.Spec20 C20.Model20 C20.Hyps20 C20.Text20.
 Extraction Language OCaml.
 Extraction "../ocaml/C20/gen_c20.ml"
   xi_parser xi_docproc xi_spec_doc annot erase_base enough_fuel resolve split_slash join_slash elem_base
-  get_base_attr drop_base_attr is_fatal under_theorem clean_fs clean_doc include_text decode_whole.
+  get_base_attr drop_base_attr is_fatal under_theorem clean_fs clean_doc include_text decode_whole xi_resource_errors_doc.
